@@ -21,6 +21,8 @@ PROPS = {
     'C04': {'gens': ['c04'], 'configs': C(['default', 'int64'])},
     'C05': {'gens': ['c05', 'c05k'], 'translate': ['K:field5x52', 'K:ct'], 'configs': C(['default', 'int64', 'int128struct'], ALLCONF + ['o2']),
             'assumptions': ['x86-64 assembly, safegcd modinv and ecmult internals are tied by correspondence only']},
+    'C06': {'gens': ['c06'], 'translate': ['K:ct'], 'ct_valgrind': True, 'configs': C(['default'], ['default', 'verify']),
+            'assumptions': ['compiler and CPU behaviour are outside the Lean model; valgrind observes the executed paths of the built binaries only']},
     'C08': {'gens': ['c08'], 'configs': C(['default', 'int64'])},
     'C09': {'gens': ['c09'], 'configs': C(['default', 'int64'])},
     'C10': {'gens': ['c10'], 'configs': C(['default', 'int64'])},
